@@ -278,5 +278,156 @@ theorem stepBody_spec (fa : SwapFn H) (hfa : GoodSwap fa) (c : Container H) :
   · rw [h.1, map_setCutoff_frame]
   · rw [h.2.1, map_setCutoff_cutoff]
 
+/-! ### which pairs are attempted -/
+
+theorem firstSub_length {α : Type} (gs : List α) : (firstSub gs).length = firstLen gs.length := by
+  unfold firstSub firstLen; rw [List.length_take]; split <;> omega
+
+theorem secondSub_length {α : Type} (gs : List α) : (secondSub gs).length = secondEnd gs.length - 1 := by
+  unfold secondSub secondEnd; rw [List.length_drop, List.length_take]; split <;> omega
+
+theorem makeEqs_length : ∀ gs : List (Replica H), (makeEqs I gs).length = gs.length / 2
+  | [] => by simp [makeEqs]
+  | [_] => by simp [makeEqs]
+  | a :: b :: rest => by
+    simp only [makeEqs, List.length_cons]; rw [makeEqs_length rest]; omega
+
+theorem makeEqs_congr : ∀ (gs gs' : List (Replica H)),
+    gs.map (·.ham) = gs'.map (·.ham) → makeEqs I gs = makeEqs I gs'
+  | [], [], _ => rfl
+  | [], _ :: _, h => by simp at h
+  | _ :: _, [], h => by simp at h
+  | [a], [a'], _ => rfl
+  | [_], _ :: _ :: _, h => by simp at h
+  | _ :: _ :: _, [_], h => by simp at h
+  | a :: b :: rest, a' :: b' :: rest', h => by
+    simp only [List.map_cons, List.cons.injEq] at h
+    simp only [makeEqs]
+    rw [h.1, h.2.1, makeEqs_congr rest rest' h.2.2]
+
+/-- the left indices phase a / phase b attempt on a ladder of `n` replicas -/
+def phaseALefts (n : Nat) : List Nat := (List.range (n / 2)).map (fun k => 0 + 2 * k)
+def phaseBLefts (n : Nat) : List Nat := (List.range ((n - 1) / 2)).map (fun k => 1 + 2 * k)
+
+theorem phaseA_lefts (gs : List (Replica H)) (eqs : List Bool) (s : RS)
+    (h : eqs.length = firstLen gs.length / 2) :
+    (phaseA (performSwaps I) gs eqs s).2.1.map (·.left) = phaseALefts gs.length := by
+  unfold phaseA phaseALefts
+  simp only []
+  rw [performSwaps_lefts I 0 (firstSub gs) eqs s (by rw [firstSub_length]; exact h), firstSub_length]
+  have : firstLen gs.length / 2 = gs.length / 2 := by unfold firstLen; split <;> omega
+  rw [this]
+
+theorem phaseB_lefts (gs : List (Replica H)) (eqs : List Bool) (s : RS)
+    (h : eqs.length = (secondEnd gs.length - 1) / 2) :
+    (phaseB (performSwaps I) gs eqs s).2.1.map (·.left) = phaseBLefts gs.length := by
+  unfold phaseB phaseBLefts
+  simp only []
+  rw [performSwaps_lefts I 1 (secondSub gs) eqs s (by rw [secondSub_length]; exact h), secondSub_length]
+  have : (secondEnd gs.length - 1) / 2 = (gs.length - 1) / 2 := by unfold secondEnd; split <;> omega
+  rw [this]
+
+/-- lengths of the cached equalities fit the two phases -/
+def EqLens (eqs : List Bool × List Bool) (n : Nat) : Prop :=
+  eqs.1.length = firstLen n / 2 ∧ eqs.2.length = (secondEnd n - 1) / 2
+
+theorem phase_length {f : SwapFn H} (hf : GoodSwap f) (gs : List (Replica H)) (eqs : List Bool) (s : RS) :
+    (phaseA f gs eqs s).1.length = gs.length ∧ (phaseB f gs eqs s).1.length = gs.length := by
+  have a := congrArg List.length (phaseA_frame hf gs eqs s).1
+  have b := congrArg List.length (phaseB_frame hf gs eqs s).1
+  simpa using And.intro a b
+
+theorem stepCore_lefts (ts : Nat) (eqs : List Bool × List Bool) (gs : List (Replica H)) (g : Bool × RS)
+    (h : EqLens eqs gs.length) :
+    (stepCore I (performSwaps I) ts eqs gs g).2.map (·.left) =
+      if g.1 then phaseALefts gs.length ++ phaseBLefts gs.length
+      else phaseBLefts gs.length ++ phaseALefts gs.length := by
+  have hs := goodSwap_serial I
+  unfold stepCore
+  by_cases hg : g.1 = true
+  · rw [if_pos hg, if_pos hg]
+    simp only [List.map_append]
+    rw [phaseA_lefts I gs eqs.1 g.2 h.1,
+      phaseB_lefts I _ eqs.2 _ (by rw [(phase_length hs gs eqs.1 g.2).1]; exact h.2),
+      (phase_length hs gs eqs.1 g.2).1]
+  · rw [if_neg hg, if_neg hg]
+    simp only [List.map_append]
+    rw [phaseB_lefts I gs eqs.2 g.2 h.2,
+      phaseA_lefts I _ eqs.1 _ (by rw [(phase_length hs gs eqs.2 g.2).2]; exact h.1),
+      (phase_length hs gs eqs.2 g.2).2]
+
+/-! ### rayon step = serial step -/
+
+theorem phaseA_parallel_eq (gs : List (Replica H)) (eqs : List Bool) (s : RS)
+    (h : eqs.length = firstLen gs.length / 2) :
+    phaseA (parallelPerformSwaps I) gs eqs s = phaseA (performSwaps I) gs eqs s := by
+  unfold phaseA
+  rw [parallel_eq_serial I 0 (firstSub gs) eqs s (by rw [firstSub_length]; exact h)]
+
+theorem stepCore_parallel_eq (ts : Nat) (eqs : List Bool × List Bool) (gs : List (Replica H))
+    (g : Bool × RS) (h : EqLens eqs gs.length) :
+    stepCore I (parallelPerformSwaps I) ts eqs gs g = stepCore I (performSwaps I) ts eqs gs g := by
+  have hs := goodSwap_serial I
+  unfold stepCore
+  by_cases hg : g.1 = true
+  · rw [if_pos hg, if_pos hg]
+    simp only []
+    rw [phaseA_parallel_eq I gs eqs.1 g.2 h.1]
+  · rw [if_neg hg, if_neg hg]
+    simp only []
+    rw [phaseA_parallel_eq I _ eqs.1 _ (by rw [(phase_length hs gs eqs.2 g.2).2]; exact h.1)]
+
+/-! ### the cache of Hamiltonian equalities -/
+
+/-- a cached list, when present, is what `make_ham_equalities` would compute now -/
+def CacheValid (c : Container H) : Prop :=
+  (∀ a, c.eqA = some a → a = makeEqs I (firstSub c.graphs)) ∧
+  (∀ b, c.eqB = some b → b = makeEqs I (secondSub c.graphs))
+
+theorem hamEqualities_eq (c : Container H) (h : CacheValid I c) :
+    hamEqualities I c = (makeEqs I (firstSub c.graphs), makeEqs I (secondSub c.graphs)) := by
+  unfold hamEqualities
+  cases ha : c.eqA with
+  | none => rfl
+  | some a =>
+    cases hb : c.eqB with
+    | none => rfl
+    | some b => simp only []; rw [h.1 a ha, h.2 b hb]
+
+theorem hamEqualities_lens (c : Container H) (h : CacheValid I c) :
+    EqLens (hamEqualities I c) c.graphs.length := by
+  rw [hamEqualities_eq I c h]
+  exact ⟨by simp [makeEqs_length, firstSub_length], by simp [makeEqs_length, secondSub_length]⟩
+
+theorem frame_ham (gs gs' : List (Replica H)) (h : gs.map Replica.frame = gs'.map Replica.frame) :
+    gs.map (·.ham) = gs'.map (·.ham) := by
+  have := congrArg (List.map (fun f : H × Rat × Rat × Nat × Nat => f.1)) h
+  simpa [List.map_map, Function.comp_def, Replica.frame] using this
+
+theorem cacheValid_step (c : Container H) (h : CacheValid I c) :
+    CacheValid I (stepBody I (performSwaps I) c).1 := by
+  have sp := stepBody_spec I (performSwaps I) (goodSwap_serial I) c
+  have hh := frame_ham _ _ sp.1
+  have hl : (stepBody I (performSwaps I) c).1.graphs.length = c.graphs.length := by
+    simpa using congrArg List.length hh
+  have core := stepCore_spec I (performSwaps I) (goodSwap_serial I) c.totalSwaps (hamEqualities I c)
+    (c.graphs.map (·.setCutoff (maxCutoff c.graphs))) (c.rng.genBool (1 / 2))
+  have eA : (stepBody I (performSwaps I) c).1.eqA = some (hamEqualities I c).1 := core.2.2.2.2.1
+  have eB : (stepBody I (performSwaps I) c).1.eqB = some (hamEqualities I c).2 := core.2.2.2.2.2
+  rw [hamEqualities_eq I c h] at eA eB
+  constructor
+  · intro a ha
+    rw [eA] at ha
+    cases ha
+    apply makeEqs_congr
+    unfold firstSub
+    rw [List.map_take, List.map_take, hl, hh]
+  · intro b hb
+    rw [eB] at hb
+    cases hb
+    apply makeEqs_congr
+    unfold secondSub
+    rw [List.map_drop, List.map_drop, List.map_take, List.map_take, hl, hh]
+
 end Tempering
 end Qmc
